@@ -68,7 +68,8 @@ func c02Alphabet() (lines []c02Line, hA, hB string) {
 		net(false, p, true, "client=~127.0.0.1|~::1"),
 		net(false, p, true, "client=10.0.0.0/8|~10.0.0.1"), // a client inside both the permitted and the restricted set
 		net(false, p, true, "client=laptop|~laptop"),
-		net(false, p, false, "third-party", "important"), // browser-only modifier next to a DNS-level one
+		net(false, "||cafe.de^", true, "denyallow=x.test"), // a host name spelled with hexadecimal digits only is not an address
+		net(false, p, false, "third-party", "important"),   // browser-only modifier next to a DNS-level one
 		net(true, p, false, "document", "important"),
 		net(false, p, false, "popup", "important"),
 	}
@@ -86,7 +87,7 @@ type c02Req struct {
 }
 
 func c02Requests(hA, hB string) (qs []c02Req) {
-	for _, h := range []string{"example.org", "sub.example.org", hA, hB, "EXAMPLE.ORG", "", "ads.пример.рф", "Tracker.Example.ORG"} {
+	for _, h := range []string{"example.org", "sub.example.org", hA, hB, "EXAMPLE.ORG", "", "ads.пример.рф", "Tracker.Example.ORG", "cafe.de"} {
 		for _, t := range []uint16{1, 28, 16} {
 			for ci, cl := range []struct{ name, ip string }{{"", ""}, {"laptop", ""}, {"", "10.0.0.1"}, {"", "fd00::17"}, {"", "::1"}} {
 				for ti, tags := range [][]string{nil, {"pc"}} {
@@ -218,8 +219,24 @@ func (m *c02Model) run(hist []int) statespace.Outcome {
 		wantMatched := wantClass != 0
 		if wantClass == 0 && q.r.Hostname != "" {
 			for _, pl := range parsed {
-				if pl.host != nil && pl.host.Match(q.r.Hostname) {
-					if pl.host.IP.Is4() {
+				if pl.host == nil {
+					continue
+				}
+				// names and address family as written in the line (read without the library)
+				// (the alphabet's hosts lines are "address name..." or a bare name, no comments)
+				fields := strings.Fields(pl.l.text)
+				addr, names := "0.0.0.0", fields
+				if len(fields) > 1 {
+					addr, names = fields[0], fields[1:]
+				}
+				listed := false
+				for _, n := range names {
+					if n == q.r.Hostname {
+						listed = true
+					}
+				}
+				if listed {
+					if !strings.Contains(addr, ":") {
 						wantV4 = append(wantV4, pl.l.text)
 					} else {
 						wantV6 = append(wantV6, pl.l.text)
